@@ -7,16 +7,14 @@ namespace BioCantor.Proofs.Query
 open BioCantor BioCantor.Spec BioCantor.Spec.Query BioCantor.Model.Query
 
 /-- modelled domain of parents: what `seq_to_parent` / `seq_chunk_to_parent` and the member constructors establish
-    (a non-empty sequence, members of a whole chromosome lie on it), and — the complement is finding F-C09d —
-    explicit bounds on a chunk either miss the chunk or lie within it -/
+    (a non-empty sequence, a chunk at a non-negative position, members of a whole chromosome lie on it).  Explicit
+    bounds may be in any relation to the sequence (F-C09d repaired). -/
 def ParWF (src : Source) : Prop :=
   match src.par with
   | .none => True
   | .noseq => True
   | .whole seq => seq ≠ [] ∧ ∀ c ∈ src.children, ∀ g ∈ c.gcs, 0 ≤ g.start ∧ g.stop ≤ seq.length
-  | .chunk cs seq => seq ≠ [] ∧ 0 ≤ cs ∧
-      ∀ bs be, src.bounds = some (bs, be) → max bs cs < min be (cs + seq.length) →
-        cs ≤ bs ∧ be ≤ cs + seq.length
+  | .chunk cs seq => seq ≠ [] ∧ 0 ≤ cs
 
 /-- What the real constructors establish + the modelled domain. -/
 structure SrcWF (src : Source) : Prop where
@@ -135,14 +133,10 @@ theorem bounds_whole {src : Source} (wf : SrcWF src) {seq : List Char} (hp : src
     simp only [Bool.and_eq_true, decide_eq_true_eq] at hc
     omega
 
-/-- chunk: the bounds are a valid interval, and if they meet the chunk they lie within it -/
+/-- chunk: the bounds are a valid interval -/
 theorem bounds_chunk {src : Source} (wf : SrcWF src) {cs : Int} {seq : List Char} (hp : src.par = .chunk cs seq)
-    {bs be : Int} (hb : selfBounds src = some (bs, be)) :
-    bs ≤ be ∧ (max bs cs < min be (cs + seq.length) → cs ≤ bs ∧ be ≤ cs + seq.length) := by
+    {bs be : Int} (hb : selfBounds src = some (bs, be)) : bs ≤ be := by
   have hc := wf.cons
-  have hpar := wf.par
-  unfold ParWF at hpar
-  rw [hp] at hpar
   unfold constructible at hc
   cases hbb : src.bounds with
   | none =>
@@ -157,7 +151,7 @@ theorem bounds_chunk {src : Source} (wf : SrcWF src) {cs : Int} {seq : List Char
     subst hs
     rw [hbb] at hc
     simp only [Bool.and_eq_true, decide_eq_true_eq] at hc
-    exact ⟨hc.1.2, hpar.2.2 bs be hbb⟩
+    exact hc.1.2
 
 theorem locRange_whole {src : Source} (wf : SrcWF src) {seq : List Char} (hp : src.par = .whole seq) {bs be : Int}
     (hb : selfBounds src = some (bs, be)) : locRange src = some (bs, be) := by
@@ -169,20 +163,13 @@ theorem locRange_whole {src : Source} (wf : SrcWF src) {seq : List Char} (hp : s
   have e2 : min be (seq.length : Int) = be := by omega
   rw [e1, e2]
 
-theorem locRange_chunk {src : Source} (wf : SrcWF src) {cs : Int} {seq : List Char} (hp : src.par = .chunk cs seq)
+theorem locRange_chunk {src : Source} {cs : Int} {seq : List Char} (hp : src.par = .chunk cs seq)
     {bs be : Int} (hb : selfBounds src = some (bs, be)) :
-    locRange src = if max bs cs < min be (cs + seq.length) then some (bs, be) else none := by
-  have h := bounds_chunk wf hp hb
+    locRange src = if max bs cs < min be (cs + seq.length) then some (max bs cs, min be (cs + seq.length))
+      else none := by
   unfold locRange
   rw [specBounds_eq_self hb, hp]
-  simp only [Par.seqAt]
-  split
-  · rename_i hov
-    have := h.2 hov
-    have e1 : max bs cs = bs := by omega
-    have e2 : min be (cs + (seq.length : Int)) = be := by omega
-    rw [e1, e2]
-  · rfl
+  rfl
 
 theorem locRange_noseq {src : Source} (hp : src.par.hasSeq = false) : locRange src = none := by
   unfold locRange
@@ -192,19 +179,23 @@ theorem locRange_noseq {src : Source} (hp : src.par.hasSeq = false) : locRange s
   | whole _ => rw [hpp] at hp; cases hp
   | chunk _ _ => rw [hpp] at hp; cases hp
 
-/-- `chunk_relative_location.parent and .parent.sequence` = the collection has sequence somewhere -/
-theorem hasLocSeq_eq {src : Source} (wf : SrcWF src) {bs be : Int} (hb : selfBounds src = some (bs, be)) :
-    hasLocSeq src = .ok (locRange src).isSome := by
-  unfold hasLocSeq
+/-- the stretch the code lifts (`lift_over_to_first_ancestor_of_type(CHROMOSOME)` of the collection's location,
+    when it has a parent with sequence) is the spec's `locRange` -/
+theorem seqRange_eq {src : Source} (wf : SrcWF src) {bs be : Int} (hb : selfBounds src = some (bs, be)) :
+    seqRange src = .ok (locRange src) := by
+  unfold seqRange
   cases hp : src.par with
   | none => rw [locRange_noseq (by rw [hp]; rfl)]; rfl
   | noseq => rw [locRange_noseq (by rw [hp]; rfl)]; rfl
-  | whole seq => rw [locRange_whole wf hp hb]; rfl
+  | whole seq =>
+    rw [locRange_whole wf hp hb]
+    simp only [needBounds_of hb, bind, Except.bind, located]
+    rfl
   | chunk cs seq =>
     have h := bounds_chunk wf hp hb
-    rw [locRange_chunk wf hp hb]
+    rw [locRange_chunk hp hb]
     simp only [needBounds_of hb, bind, Except.bind, located]
-    rw [overlapInt_iff _ _ _ _ (by omega) h.1]
+    rw [overlapInt_iff _ _ _ _ (by omega) h]
     by_cases hov : max bs cs < min be (cs + (seq.length : Int))
     · have : (bs < cs + (seq.length : Int) ∧ cs < be ∧ bs < be ∧ cs < cs + (seq.length : Int)) := by omega
       simp only [hov, this, and_self, decide_true, if_true]; rfl
@@ -250,11 +241,10 @@ theorem members_norm_eq (src : Source) (wf : SrcWF src) (rp rp' : RPar) (hrp : r
     (liftChildP rp c).norm = (expectChild rp' c).norm :=
   liftChildP_norm_eq rp rp' hrp c (fun g hg => gc_mseq_norm src wf rp hshape c hc g hg)
 
-/-- where `_subset_parent` is asked for: a non-inverted range which — when the collection has sequence — lies
-    within the bounds (position queries) or, on a chunk, contains them (id queries: clamped to the bounds) -/
-def SubsetDomain (src : Source) (bs be start stop : Int) : Prop :=
-  (locRange src).isSome = true → start ≤ stop ∧ (start < stop →
-    (bs ≤ start ∧ stop ≤ be) ∨ (src.par.isChunk = true ∧ start ≤ bs ∧ be ≤ stop))
+/-- where `_subset_parent` is asked for: when the collection has sequence, a non-inverted range (any: it is
+    clamped to the stretch the collection has sequence for) -/
+def SubsetDomain (src : Source) (start stop : Int) : Prop :=
+  (locRange src).isSome = true → start ≤ stop
 
 theorem subsetParent_null (src : Source) (bs be : Int) (hb : selfBounds src = some (bs, be)) (start : Int) :
     subsetParent src start start = .ok .none := by
@@ -279,7 +269,7 @@ theorem slice_ne_nil (l : List Char) (i j : Int) (h0 : 0 ≤ i) (h1 : i < j) (h2
 /-- The parent of the result: `_subset_parent` succeeds and carries, in normal form, exactly the source's sequence
     restricted to the new bounds (to the stretch of them on which the collection has sequence). -/
 theorem subsetParent_spec (src : Source) (wf : SrcWF src) (bs be : Int) (hb : selfBounds src = some (bs, be))
-    (start stop : Int) (hdom : SubsetDomain src bs be start stop) :
+    (start stop : Int) (hdom : SubsetDomain src start stop) :
     ∃ rp, subsetParent src start stop = .ok rp ∧ rp.norm = (expectPar src start stop).norm ∧
       (∀ a b, rp ≠ .chunk a b []) ∧ RPShape src rp := by
   have hpar := wf.par
@@ -298,70 +288,75 @@ theorem subsetParent_spec (src : Source) (wf : SrcWF src) (bs be : Int) (hb : se
     rw [hp] at hpar
     have hbw := bounds_whole wf hp hb
     have hloc := locRange_whole wf hp hb
-    obtain ⟨hle, hdom⟩ := hdom (by rw [hloc]; rfl)
+    have hle := hdom (by rw [hloc]; rfl)
     by_cases he : start = stop
     · subst he
       refine ⟨RPar.none, subsetParent_null src bs be hb start, ?_, ?_, trivial⟩
       · unfold expectPar; rw [hp, hloc]; simp only [Par.seqAt, Int.le_refl, if_true]
       · intro a b h; cases h
     · have hlt : start < stop := by omega
-      have hin : bs ≤ start ∧ stop ≤ be := by
-        rcases hdom hlt with h | h
-        · exact h
-        · have := h.1; rw [hp] at this; simp [Par.isChunk] at this
-      refine ⟨_, subsetParent_whole src seq hp bs be hb ⟨hbw.1, hbw.2.2⟩ start stop ⟨hin.1, hlt, hin.2⟩, ?_, ?_, ?_⟩
+      have hns : ¬ stop ≤ start := by omega
+      refine ⟨_, subsetParent_whole src seq hp bs be hb hbw start stop he, ?_, ?_, ?_⟩
       · unfold expectPar
         rw [hp, hloc, specBounds_eq_self hb]
-        have hns : ¬ stop ≤ start := by omega
         simp only [Par.seqAt, hns, if_false, Option.some.injEq, Prod.mk.injEq]
         by_cases hid : start = bs ∧ stop = be
         · obtain ⟨h1, h2⟩ := hid
           subst h1 h2
           simp only [and_self, if_true, Par.toRPar]
         · have hid' : ¬ (bs = start ∧ be = stop) := fun h => hid ⟨h.1.symm, h.2.symm⟩
-          have e1 : max start bs = start := by omega
-          have e2 : min stop be = stop := by omega
-          simp only [hid, hid', if_false, e1, e2, stretch, Int.sub_zero]
+          simp only [hid, hid', if_false]
+          by_cases hcl : max start bs < min stop be
+          · simp only [hcl, if_true, stretch, Int.sub_zero]
+          · simp only [hcl, if_false, stretch]
+            rw [slice_empty _ _ _ (by omega)]
+            rfl
       · intro a b
         by_cases hid : start = bs ∧ stop = be
         · simp only [hid, and_self, if_true]; intro h; cases h
         · simp only [hid, if_false]
-          intro h
-          simp only [RPar.chunk.injEq] at h
-          exact slice_ne_nil seq start stop (by omega) hlt (by omega) h.2.2
+          by_cases hcl : max start bs < min stop be
+          · simp only [hcl, if_true]
+            intro h
+            simp only [RPar.chunk.injEq] at h
+            exact slice_ne_nil seq _ _ (by omega) hcl (by omega) h.2.2
+          · simp only [hcl, if_false]; intro h; cases h
       · by_cases hid : start = bs ∧ stop = be
         · simp only [hid, and_self, if_true]; exact hp
         · simp only [hid, if_false]
-          exact ⟨by omega, slice_ne_nil seq start stop (by omega) hlt (by omega), by rw [hp]; rfl⟩
+          by_cases hcl : max start bs < min stop be
+          · simp only [hcl, if_true]
+            exact ⟨by omega, slice_ne_nil seq _ _ (by omega) hcl (by omega), by rw [hp]; rfl⟩
+          · simp only [hcl, if_false]; trivial
   | chunk cs seq =>
     rw [hp] at hpar
     have hbc := bounds_chunk wf hp hb
-    have hloc := locRange_chunk wf hp hb
+    have hloc := locRange_chunk hp hb
     by_cases hov : max bs cs < min be (cs + (seq.length : Int))
-    · have hin' := hbc.2 hov
-      rw [if_pos hov] at hloc
-      obtain ⟨hle, hdom⟩ := hdom (by rw [hloc]; rfl)
+    · rw [if_pos hov] at hloc
+      have hle := hdom (by rw [hloc]; rfl)
       by_cases he : start = stop
       · subst he
         refine ⟨RPar.none, subsetParent_null src bs be hb start, ?_, ?_, trivial⟩
         · unfold expectPar; rw [hp, hloc]; simp only [Par.seqAt, Int.le_refl, if_true]
         · intro a b h; cases h
       · have hlt : start < stop := by omega
-        have hd := hdom hlt
-        have hcl : max bs cs ≤ max start bs ∧ max start bs < min stop be ∧
-            min stop be ≤ min be (cs + (seq.length : Int)) := by
-          rcases hd with h | h <;> omega
-        refine ⟨_, subsetParent_chunk src cs seq hp bs be hb hpar.2.1 hbc.1 hov start stop he hcl, ?_, ?_, ?_⟩
+        have hns : ¬ stop ≤ start := by omega
+        refine ⟨_, subsetParent_chunk src cs seq hp bs be hb hpar.2 hbc hov start stop he, ?_, ?_, ?_⟩
         · unfold expectPar
           rw [hp, hloc, specBounds_eq_self hb]
-          have hns : ¬ stop ≤ start := by omega
           simp only [Par.seqAt, hns, if_false, Option.some.injEq, Prod.mk.injEq]
           by_cases hid : start = bs ∧ stop = be
           · obtain ⟨h1, h2⟩ := hid
             subst h1 h2
             simp only [and_self, if_true, Par.toRPar]
           · have hid' : ¬ (bs = start ∧ be = stop) := fun h => hid ⟨h.1.symm, h.2.symm⟩
-            simp only [hid, hid', if_false, stretch]
+            simp only [hid, hid', if_false]
+            by_cases hcl : max start (max bs cs) < min stop (min be (cs + (seq.length : Int)))
+            · simp only [hcl, if_true, stretch]
+            · simp only [hcl, if_false, stretch]
+              rw [slice_empty _ _ _ (by omega)]
+              rfl
         · intro a b
           by_cases hid : start = bs ∧ stop = be
           · simp only [hid, and_self, if_true]
@@ -369,15 +364,21 @@ theorem subsetParent_spec (src : Source) (wf : SrcWF src) (bs be : Int) (hb : se
             simp only [RPar.chunk.injEq] at h
             exact hpar.1 h.2.2
           · simp only [hid, if_false]
-            intro h
-            simp only [RPar.chunk.injEq] at h
-            exact slice_ne_nil seq _ _ (by omega) (by omega) (by omega) h.2.2
+            by_cases hcl : max start (max bs cs) < min stop (min be (cs + (seq.length : Int)))
+            · simp only [hcl, if_true]
+              intro h
+              simp only [RPar.chunk.injEq] at h
+              exact slice_ne_nil seq _ _ (by omega) (by omega) (by omega) h.2.2
+            · simp only [hcl, if_false]; intro h; cases h
         · by_cases hid : start = bs ∧ stop = be
           · simp only [hid, and_self, if_true]; exact ⟨by omega, hpar.1, by rw [hp]; rfl⟩
           · simp only [hid, if_false]
-            exact ⟨by omega, slice_ne_nil seq _ _ (by omega) (by omega) (by omega), by rw [hp]; rfl⟩
+            by_cases hcl : max start (max bs cs) < min stop (min be (cs + (seq.length : Int)))
+            · simp only [hcl, if_true]
+              exact ⟨by omega, slice_ne_nil seq _ _ (by omega) (by omega) (by omega), by rw [hp]; rfl⟩
+            · simp only [hcl, if_false]; trivial
     · rw [if_neg hov] at hloc
-      refine ⟨RPar.none, subsetParent_chunk_off src cs seq hp bs be hb hbc.1 hov start stop, ?_, ?_, trivial⟩
+      refine ⟨RPar.none, subsetParent_chunk_off src cs seq hp bs be hb hbc hov start stop, ?_, ?_, trivial⟩
       · unfold expectPar; rw [hp, hloc]
       · intro a b h; cases h
 
@@ -398,7 +399,7 @@ theorem nodup_guid_filter {l : List Child} (h : (l.map Child.guid).Nodup) (p : C
 theorem buildNew_meets (src : Source) (wf : SrcWF src) (bs be : Int) (hb : selfBounds src = some (bs, be))
     (keptM keptS : List Child) (hperm : keptM.Perm keptS) (hsub : ∀ c ∈ keptS, c ∈ src.children)
     (hnd : (keptS.map Child.guid).Nodup)
-    (start stop : Int) (hdom : SubsetDomain src bs be start stop) :
+    (start stop : Int) (hdom : SubsetDomain src start stop) :
     ∃ r, buildNew src keptM start stop = .ok r ∧ r.norm = (expectResult src start stop keptS).norm := by
   obtain ⟨rp, hsp, hnorm, hne, hshape⟩ := subsetParent_spec src wf bs be hb start stop hdom
   refine ⟨_, buildNew_eq src keptM start stop rp hsp hne
@@ -406,23 +407,6 @@ theorem buildNew_meets (src : Source) (wf : SrcWF src) (bs be : Int) (hb : selfB
   unfold expectResult
   exact result_norm_eq keptM keptS hperm hnd rp _ hnorm
     (fun c hc => members_norm_eq src wf rp _ hnorm hshape c (hsub c hc)) start stop
-
-/-- when the collection has sequence, its located range is the bounds (`SrcWF`: F-C09d excluded) -/
-theorem locRange_some {src : Source} (wf : SrcWF src) {bs be : Int} (hb : selfBounds src = some (bs, be))
-    {A B : Int} (h : locRange src = some (A, B)) : A = bs ∧ B = be := by
-  cases hp : src.par with
-  | none => rw [locRange_noseq (by rw [hp]; rfl)] at h; cases h
-  | noseq => rw [locRange_noseq (by rw [hp]; rfl)] at h; cases h
-  | whole seq =>
-    rw [locRange_whole wf hp hb] at h
-    simp only [Option.some.injEq, Prod.mk.injEq] at h
-    exact ⟨h.1.symm, h.2.symm⟩
-  | chunk cs seq =>
-    rw [locRange_chunk wf hp hb] at h
-    split at h
-    · simp only [Option.some.injEq, Prod.mk.injEq] at h
-      exact ⟨h.1.symm, h.2.symm⟩
-    · cases h
 
 /-- T1 + T2 (position queries): on every well-formed source with bounds, for ALL ranges and flag combinations, the
     modelled `query_by_position` gives an answer the specification accepts. -/
@@ -443,38 +427,31 @@ theorem queryByPosition_meets (src : Source) (q : PosQ) (wf : SrcWF src) (b : In
     have hbnd := resultBounds_eq_model q (optOr q.s bs) (optOr q.e be) _ _ hpermK
     have hcont := resultBounds_contains q (optOr q.s bs) (optOr q.e be)
       (specFilter src.children q.codingOnly q.cw (optOr q.s bs) (optOr q.e be))
-    simp only [hv, if_true, not_true_eq_false, if_false, bind, Except.bind, needBounds_of hb, hkept,
-      hasLocSeq_eq wf hb]
+    simp only [hv, if_true, not_true_eq_false, if_false, bind, Except.bind, hkept, seqRange_eq wf hb]
     simp only [Bool.not_eq_true] at hbnd
     simp only [Bool.not_eq_true, hbnd]
     generalize hrb : resultBounds q (optOr q.s bs) (optOr q.e be)
       (specFilter src.children q.codingOnly q.cw (optOr q.s bs) (optOr q.e be)) = nb at *
     obtain ⟨ns, ne⟩ := nb
     simp only at hcont ⊢
+    have hbuild := buildNew_meets src wf bs be hb _ _ hpermK
+      (fun c hc => (List.mem_filter.mp hc).1) (nodup_guid_filter wf.guids _) ns ne (fun _ => by omega)
+    obtain ⟨r, hr, hrn⟩ := hbuild
     cases hl : locRange src with
     | none =>
-      simp only [Option.isSome_none, Bool.false_eq_true, false_and, if_false]
-      obtain ⟨r, hr, hrn⟩ := buildNew_meets src wf bs be hb _ _ hpermK
-        (fun c hc => (List.mem_filter.mp hc).1)
-        (nodup_guid_filter wf.guids _) ns ne
-        (fun h => by rw [hl] at h; cases h)
+      simp only [Bool.false_eq_true, if_false]
       rw [hr]
       simp only [toAns, meets, beq_iff_eq]
       exact hrn
     | some ab =>
       obtain ⟨A, B⟩ := ab
-      obtain ⟨rfl, rfl⟩ := locRange_some wf hb hl
-      simp only [Option.isSome_some, true_and]
-      by_cases hex : ns < A ∨ ne > B
-      · have hex' : (ns < optOr q.s A ∨ optOr q.e B < ne) ∧ (ns < A ∨ B < ne) := by omega
-        simp only [hex, hex', and_self, if_true, decide_true]
+      simp only []
+      by_cases hex : (ns < optOr q.s bs ∨ optOr q.e be < ne) ∧ (ns < A ∨ B < ne)
+      · have hex' : (ns < optOr q.s bs ∨ ne > optOr q.e be) ∧ (ns < A ∨ ne > B) := by omega
+        simp only [hex, hex', decide_true, if_true]
         rfl
-      · have hex' : ¬ ((ns < optOr q.s A ∨ optOr q.e B < ne) ∧ (ns < A ∨ B < ne)) := by omega
-        simp only [hex, hex', if_false, decide_false, Bool.false_eq_true, and_false]
-        obtain ⟨r, hr, hrn⟩ := buildNew_meets src wf A B hb _ _ hpermK
-          (fun c hc => (List.mem_filter.mp hc).1)
-          (nodup_guid_filter wf.guids _) ns ne
-          (fun _ => ⟨by omega, fun _ => Or.inl (by omega)⟩)
+      · have hex' : ¬ ((ns < optOr q.s bs ∨ ne > optOr q.e be) ∧ (ns < A ∨ ne > B)) := by omega
+        simp only [hex, hex', decide_false, Bool.false_eq_true, if_false]
         rw [hr]
         simp only [toAns, meets, beq_iff_eq]
         exact hrn
